@@ -175,4 +175,14 @@ def harvest_lengths(modules=(), cdirs=(), hi=20000000, cap=12):
         for pat in ("*.c", "*.cc", "*.cpp", "*.h", "*.hpp"):
             cs += [f for f in glob.glob(os.path.join(root, "esutil", d, pat)) if "_wrap" not in os.path.basename(f)]
     blocks = harvested_sizes(modules, cs, hi=hi)
-    return lengths_from_blocks(blocks, hi=hi, cap=cap), blocks
+    lengths = lengths_from_blocks(blocks, hi=hi, cap=cap)
+    # larger constants (up to 2^31) read as BYTE thresholds of float64 / float32 data ("switch strategy from 128 MiB on")
+    big = harvested_sizes(modules, cs, lo=hi + 1, hi=2 ** 31)
+    for b in big:
+        for item in (8, 4):
+            n = b // item
+            if 1000 <= n <= hi + hi // 10:
+                for m in (n - 1, n, n + 1):
+                    if m not in lengths:
+                        lengths.append(m)
+    return lengths, blocks + big
